@@ -8,6 +8,7 @@ use std::collections::BTreeMap;
 
 mod d_registry;
 mod d_hub;
+mod d_hubworld;
 mod d_misc;
 
 pub struct Rng(pub u64);
@@ -38,6 +39,7 @@ fn driver(name: &str) -> Box<dyn Driver> {
     match name {
         "calculate_delegations" => Box::new(d_registry::CalcDelegations),
         "calculate_undelegations" => Box::new(d_registry::CalcUndelegations),
+        "hub_op" => Box::new(d_hubworld::HubOp),
         other => {
             if let Some(d) = d_hub::driver(other) { return d; }
             if let Some(d) = d_misc::driver(other) { return d; }
@@ -73,7 +75,7 @@ fn main() {
             for i in 0..budget {
                 let input = d.gen(&mut rng, i);
                 let (cl, obs) = guarded(&*d, &input);
-                let bad: Vec<&String> = cl.iter().filter(|(k, v)| !**v && want.map_or(true, |w| k.as_str() == w || k.as_str() == "#BODY")).map(|(k, _)| k).collect();
+                let bad: Vec<&String> = cl.iter().filter(|(k, v)| !**v && want.map_or(true, |w| k.as_str() == w || (w.ends_with('*') && k.starts_with(&w[..w.len() - 1])) || k.as_str() == "#BODY")).map(|(k, _)| k).collect();
                 if !bad.is_empty() {
                     println!("{}", json!({"found": true, "tries": i + 1, "driver": a[2], "input": input, "failed": bad, "clauses": cl, "observed": obs}));
                     return;
